@@ -88,13 +88,13 @@ Definition ep_write_table (x : sx) : sx :=
           let readback :=
             match e with
             | Some _ => None
-            | None => if good_dlm pol dlm && table_ok pol dlm enc norm then Some (map (map nl_norm) norm) else None
+            | None => if good_dlm pol dlm && dlm_nl_free pol dlm && table_ok pol dlm enc norm then Some (map (map nl_norm) norm) else None
             end in
           L [sx_of_list sx_of_str lines;
              sx_of_option (fun ie => L [sx_of_nat (fst ie); sx_of_werr (snd ie)]) e;
              sx_of_bool nf; sx_of_bool df;
              sx_of_option (sx_of_list (sx_of_list sx_of_str)) readback;
-             sx_of_bool (good_dlm pol dlm && table_representable pol dlm enc norm)]
+             sx_of_bool (good_dlm pol dlm && dlm_nl_free pol dlm && table_representable pol dlm enc norm)]
       | _, _, _, _, _ => ERR
       end
   | _ => ERR
@@ -115,7 +115,7 @@ Definition ep_table_representable (x : sx) : sx :=
   match x with
   | L [p; d; A enc; rows] =>
       match pol_of_sx p, str_of_sx d, list_of_sx (list_of_sx str_of_sx) rows with
-      | Some pol, Some dlm, Some rs => sx_of_bool (good_dlm pol dlm && table_representable pol dlm enc rs)
+      | Some pol, Some dlm, Some rs => sx_of_bool (good_dlm pol dlm && dlm_nl_free pol dlm && table_representable pol dlm enc rs)
       | _, _, _ => ERR
       end
   | _ => ERR
